@@ -97,7 +97,8 @@ template <class SK, class TK, pass P> void check_map()
       VRT_CHECK(log == order, name + ":visit_order", "function called with %s, source order is %s", show(log).c_str(),
                 show(order).c_str());
       VRT_CHECK(got == want, name + ":wrong", "got %s want %s", show(got).c_str(), show(want).c_str());
-      if constexpr (P != pass::rvalue)
+      consumed_once<SK>(src, name);
+      if constexpr (P != pass::rvalue && !std::is_same_v<SK, k_single_pass>)
         VRT_CHECK(contents(src) == order, name + ":source_changed", "source is now %s", show(contents(src)).c_str());
     }
   }
@@ -336,9 +337,11 @@ template <class SK, class TK, pass P> void check_map_optional()
       log.clear();
       auto const fn = [g, &log](int x) {
         log.push_back(x);
-        return opt3(g, x) < 0 ? fcppt::optional::object<int>{} : fcppt::optional::object<int>{opt3(g, x)};
+        using R = decltype(tk_from_int<TK>(0));
+        return opt3(g, x) < 0 ? fcppt::optional::object<R>{} : fcppt::optional::object<R>{tk_from_int<TK>(opt3(g, x))};
       };
       typename TK::type const res = fcppt::algorithm::map_optional<typename TK::type>(give<P>(src), fn);
+      consumed_once<SK>(src, name);
       seq const got = contents(res), want = TK::order(mapped);
       VRT_CHECK(log == order, name + ":visit_order", "function called with %s, source order is %s", show(log).c_str(),
                 show(order).c_str());
@@ -385,6 +388,7 @@ template <class SK, class TK, pass P> void check_map_concat(int pool_len, int sr
             return TK::make(*img[x]);
           };
           typename TK::type const res = fcppt::algorithm::map_concat<typename TK::type>(give<P>(src), fn);
+          consumed_once<SK>(src, name);
           seq const got = contents(res), want = TK::order(cat);
           VRT_CHECK(log == order, name + ":visit_order", "function called with %s, source order is %s", show(log).c_str(),
                     show(order).c_str());
@@ -415,6 +419,7 @@ template <class SK, pass P> void check_fold()
       std::string want = "i";
       for (int e : order)
         want = "(" + want + "," + std::to_string(e) + ")";
+      consumed_once<SK>(src, n_fold);
       VRT_CHECK(res == want, n_fold + ":wrong", "got %s want %s", res.c_str(), want.c_str());
     }
     if (vrt::begin_text(n_foldu.c_str(), n_foldu + " " + ss + " state=7 f(e,s)=5s+e+1"))
@@ -428,6 +433,7 @@ template <class SK, pass P> void check_fold()
       std::uint64_t want = 7;
       for (int e : order)
         want = want * 5U + static_cast<std::uint64_t>(e) + 1U;
+      consumed_once<SK>(src, n_foldu);
       VRT_CHECK(res == want, n_foldu + ":wrong", "got %llu want %llu", (unsigned long long)res, (unsigned long long)want);
     }
     // fold_break: break when the predicate holds for the element (8 predicates), or at the k-th call
@@ -460,6 +466,7 @@ template <class SK, pass P> void check_fold()
         bool const brk = by_pred ? pred3(rule, e) : log.size() == k;
         return std::make_pair(brk ? fcppt::loop::break_ : fcppt::loop::continue_, "(" + st + "," + std::to_string(e) + ")");
       });
+      consumed_once<SK>(src, n_break);
       VRT_CHECK(log == want_log, n_break + ":calls", "called with %s want %s", show(log).c_str(), show(want_log).c_str());
       VRT_CHECK(res == want, n_break + ":wrong", "got %s want %s", res.c_str(), want.c_str());
     }
@@ -482,6 +489,7 @@ template <class SK, pass P> void check_loop()
       typename SK::type src = SK::make(s);
       log.clear();
       fcppt::algorithm::loop(give<P>(src), [&log](int e) { log.push_back(e); });
+      consumed_once<SK>(src, n_loop);
       VRT_CHECK(log == order, n_loop + ":wrong", "visited %s want %s", show(log).c_str(), show(order).c_str());
     }
     for (std::size_t k = 1; k <= order.size() + 1; ++k)
@@ -496,6 +504,7 @@ template <class SK, pass P> void check_loop()
         log.push_back(e);
         return log.size() == k ? fcppt::loop::break_ : fcppt::loop::continue_;
       });
+      consumed_once<SK>(src, n_break);
       seq const want(order.begin(), order.begin() + static_cast<std::ptrdiff_t>(std::min(k, order.size())));
       VRT_CHECK(log == want, n_break + ":wrong", "visited %s want %s", show(log).c_str(), show(want).c_str());
     }
@@ -532,7 +541,6 @@ template <class SK> void check_predicates()
   {
     seq const order = SK::order(s);
     std::string const ss = show(s);
-    typename SK::type const src = SK::make(s);
     for (int p = 0; p < 8; ++p)
     {
       std::size_t first_false = order.size(), first_true = order.size();
@@ -548,10 +556,12 @@ template <class SK> void check_predicates()
         vrt::nontrivial(first_false != order.size() && first_false > 0);
         vrt::maybe_sample();
         log.clear();
+        typename SK::type const src = SK::make(s);
         bool const r = fcppt::algorithm::all_of(src, [p, &log](int e) {
           log.push_back(e);
           return pred3(p, e);
         });
+        consumed_once<SK>(src, n_all);
         VRT_CHECK(r == (first_false == order.size()), n_all + ":wrong", "got %d", int(r));
         // elements are inspected in order, at least up to the deciding one
         VRT_CHECK(is_prefix(log, order) && log.size() >= std::min(first_false + 1, order.size()), n_all + ":calls",
@@ -562,10 +572,12 @@ template <class SK> void check_predicates()
       {
         vrt::nontrivial(first_true != order.size() && first_true > 0);
         log.clear();
+        typename SK::type const src = SK::make(s);
         bool const r = fcppt::algorithm::contains_if(src, [p, &log](int e) {
           log.push_back(e);
           return pred3(p, e);
         });
+        consumed_once<SK>(src, n_cif);
         VRT_CHECK(r == (first_true != order.size()), n_cif + ":wrong", "got %d", int(r));
         VRT_CHECK(is_prefix(log, order) && log.size() >= std::min(first_true + 1, order.size()), n_cif + ":calls",
                   "predicate called with %s on %s", show(log).c_str(), show(order).c_str());
@@ -580,7 +592,9 @@ template <class SK> void check_predicates()
       for (int e : order)
         want = want || e == v;
       vrt::nontrivial(want && order.size() >= 2);
+      typename SK::type const src = SK::make(s);
       VRT_CHECK(fcppt::algorithm::contains(src, v) == want, n_con + ":wrong", "want %d", int(want));
+      consumed_once<SK>(src, n_con);
     }
   }
 }
@@ -727,6 +741,50 @@ void register_algorithm_shards()
     check_predicates<k_set>();
     check_predicates<k_multiset>();
     check_predicates<k_input_once>();
+  });
+  // iterator categories: really single-pass input ranges (shared cursor, traversal counted) and bidirectional ranges
+  // without size(), next to the forward / random-access ones above, with every target container type
+  c16::shard("categories/map_single_pass", [] {
+    check_map<k_single_pass, k_vector, pass::const_lvalue>();
+    check_map<k_single_pass, k_vector, pass::rvalue>();
+    check_map<k_single_pass, k_string, pass::const_lvalue>();
+    check_map<k_single_pass, k_deque, pass::const_lvalue>();
+    check_map<k_single_pass, k_list, pass::const_lvalue>();
+    check_map<k_single_pass, k_set, pass::const_lvalue>();
+  });
+  c16::shard("categories/map_bidi_forward", [] {
+    check_map<k_bidi_unsized, k_vector, pass::const_lvalue>();
+    check_map<k_bidi_unsized, k_string, pass::const_lvalue>();
+    check_map<k_bidi_unsized, k_list, pass::const_lvalue>();
+    check_map<k_bidi_unsized, k_set, pass::const_lvalue>();
+    check_map<k_fwd_unsized, k_deque, pass::const_lvalue>();
+    check_map<k_fwd_unsized, k_set, pass::const_lvalue>();
+    check_map<k_fwd_unsized, k_list, pass::const_lvalue>();
+  });
+  c16::shard("categories/map_optional_concat", [] {
+    check_map_optional<k_single_pass, k_vector, pass::const_lvalue>();
+    check_map_optional<k_single_pass, k_string, pass::const_lvalue>();
+    check_map_optional<k_single_pass, k_set, pass::const_lvalue>();
+    check_map_optional<k_bidi_unsized, k_vector, pass::const_lvalue>();
+    check_map_optional<k_fwd_unsized, k_vector, pass::const_lvalue>();
+    check_map_optional<k_ra_unsized, k_vector, pass::const_lvalue>();
+    check_map_concat<k_single_pass, k_vector, pass::const_lvalue>(1, 99, 0, 1);
+    check_map_concat<k_single_pass, k_string, pass::const_lvalue>(1, 99, 0, 1);
+    check_map_concat<k_bidi_unsized, k_vector, pass::const_lvalue>(1, 99, 0, 1);
+    check_map_concat<k_fwd_unsized, k_vector, pass::const_lvalue>(1, 99, 0, 1);
+  });
+  c16::shard("categories/fold_loop_predicates", [] {
+    check_fold<k_single_pass, pass::const_lvalue>();
+    check_fold<k_single_pass, pass::rvalue>();
+    check_fold<k_bidi_unsized, pass::const_lvalue>();
+    check_fold<k_ra_unsized, pass::const_lvalue>();
+    check_loop<k_single_pass, pass::const_lvalue>();
+    check_loop<k_single_pass, pass::rvalue>();
+    check_loop<k_bidi_unsized, pass::const_lvalue>();
+    check_predicates<k_single_pass>();
+    check_predicates<k_bidi_unsized>();
+    check_predicates<k_fwd_unsized>();
+    check_predicates<k_ra_unsized>();
   });
   c16::shard("generate_n_repeat", [] {
     check_generate_n<k_vector>();
